@@ -27,6 +27,8 @@ class Ctx:
         with open(os.path.join(VERIF, "known_findings.json")) as f:
             self.findings = [k for k in json.load(f)["findings"] if k["property"] == prop]
         os.makedirs(self.scratch, exist_ok=True)
+        if not replay:
+            shutil.rmtree(os.path.join(VERIF, "replays", prop), ignore_errors=True)    # replays of this run only
         self.jvms = 8
         self.workers = 2
 
